@@ -390,12 +390,13 @@ impl Space for RoundTotal {
 
 /// Ties and their neighbours for every (unit, increment), with a non-zero days field next to the
 /// time part: the total (a day counting 24 h) is what is rounded, not the time part alone.
-struct RoundTies {
-    tier: Tier,
+pub struct RoundTies {
+    pub name: &'static str,
+    pub tier: Tier,
 }
 impl Space for RoundTies {
     fn name(&self) -> String {
-        "c09.round_ties".into()
+        self.name.into()
     }
     fn len(&self) -> u64 {
         7 * 6
@@ -410,12 +411,14 @@ impl Space for RoundTies {
         let unit_ns = r3::UNIT_NS[smallest - 3];
         for inc in increments_for(smallest, self.tier) {
             let step = unit_ns * inc as i128;
-            for k in [0i128, 1, 2, 3, 5] {
+            for (k, half) in [(0i128, true), (1, true), (2, true), (3, true), (5, true), (0, false), (1, false), (2, false)] {
                 for delta in [-1i128, 0, 1] {
-                    // time part = k steps + half a step (+- 1 ns), carrying the sign of the days field
+                    // time part = k steps + half a step (+- 1 ns), or k whole steps (+- 1 ns; a zero time part
+                    // next to a days field that is not a multiple of the increment is one of these), carrying
+                    // the sign of the days field
                     let sign = if days < 0 { -1 } else { 1 };
-                    let time = sign * (k * step + step / 2 + delta);
-                    if step == 1 && delta != 0 {
+                    let time = sign * (k * step + if half { step / 2 } else { 0 } + delta);
+                    if (step == 1 && delta != 0) || (time != 0 && (time < 0) != (sign < 0)) {
                         continue;
                     }
                     let b = r3::balance(time, r3::T_HOUR);
@@ -431,7 +434,7 @@ impl Space for RoundTies {
                             let model = r5::round(&f, largest, smallest, inc, mode).map_err(|_| ErrorKind::Range);
                             let got = call(|| imp.round_with_provider(round_opts(largest_opt.map(funit), Some(funit(smallest)), Some(imode(mode)), Some(inc)), None, &ErrProvider));
                             out.lockstep("Duration::round(tie battery)", &model, &got, |m, x| dur_fields(x) == *m, || {
-                                vec![("duration", ftext(&f)), ("days_field", days.to_string()), ("largest", largest_opt.map(fname).unwrap_or("absent").to_string()), ("smallest", fname(smallest).to_string()), ("increment", inc.to_string()), ("mode", mode.name().to_string()), ("offset_from_tie_ns", delta.to_string()), ("steps", k.to_string())]
+                                vec![("duration", ftext(&f)), ("days_field", days.to_string()), ("largest", largest_opt.map(fname).unwrap_or("absent").to_string()), ("smallest", fname(smallest).to_string()), ("increment", inc.to_string()), ("mode", mode.name().to_string()), ("offset_from_tie_ns", delta.to_string()), ("steps", k.to_string()), ("around", if half { "tie" } else { "multiple" }.to_string())]
                             });
                         }
                     }
@@ -448,7 +451,7 @@ pub fn spaces(env: &Env) -> Vec<Box<dyn Space>> {
         Box::new(Partials),
         Box::new(Pairs { free: free.clone(), cal }),
         Box::new(RoundTotal { durs: free, tier: env.tier }),
-        Box::new(RoundTies { tier: env.tier }),
+        Box::new(RoundTies { name: "c09.round_ties", tier: env.tier }),
     ]
 }
 
